@@ -116,6 +116,7 @@ type c19Meta struct {
 	twin    bool
 	twinID  int  // job id of the twin run (for sentence runs of G)
 	reuse   bool // parsed with the long-lived Parser object shared by all reuse jobs of the package
+	noinit  bool // reuse without calling Parser.Init again (a second long-lived object, initialised once)
 	freshID int  // reuse jobs: the job with the same input and policy on a fresh Parser
 }
 
@@ -311,11 +312,15 @@ func c19Generated(c *fw.Ctx) {
 	}
 	var jobs []genrun.Job
 	var meta []c19Meta
+	alt := 0
 	addJob := func(m c19Meta, pkg string) int {
 		id := len(jobs)
 		mode := "parse"
 		if m.reuse {
 			mode = "parse,reuse"
+		}
+		if m.noinit {
+			mode = "parse,noinit"
 		}
 		jobs = append(jobs, genrun.Job{ID: id, Pkg: pkg + ".x", Mode: mode, Entry: m.entry, Text: m.in.text, EH: m.policy,
 			MaxEvents: 400*(len(m.in.text)+2) + 1000})
@@ -336,6 +341,7 @@ func c19Generated(c *fw.Ctx) {
 					tid := addJob(c19Meta{p: p, entry: e, in: inp, policy: -2, twin: true}, p.T.Pkg.Name)
 					fid := addJob(c19Meta{p: p, entry: e, in: inp, policy: -1, twinID: tid}, p.G.Pkg.Name)
 					addJob(c19Meta{p: p, entry: e, in: inp, policy: -1, twinID: tid, reuse: true, freshID: fid}, p.G.Pkg.Name)
+					addJob(c19Meta{p: p, entry: e, in: inp, policy: -1, twinID: tid, reuse: true, noinit: true, freshID: fid}, p.G.Pkg.Name)
 					pol := 0
 					if r.Intn(2) == 0 {
 						pol = 2
@@ -350,10 +356,13 @@ func c19Generated(c *fw.Ctx) {
 					fid2 := addJob(c19Meta{p: p, entry: e, in: inp, policy: pol, twinID: -1}, p.G.Pkg.Name)
 					// the same on the long-lived parser: alternately "continue" and the stopping policy, so that
 					// parses ending in the middle of a recovery are followed by other parses on the same object
-					if len(jobs)%2 == 0 {
+					alt++
+					if alt%2 == 0 {
 						addJob(c19Meta{p: p, entry: e, in: inp, policy: -1, twinID: -1, reuse: true, freshID: fid}, p.G.Pkg.Name)
+						addJob(c19Meta{p: p, entry: e, in: inp, policy: pol, twinID: -1, reuse: true, noinit: true, freshID: fid2}, p.G.Pkg.Name)
 					} else {
 						addJob(c19Meta{p: p, entry: e, in: inp, policy: pol, twinID: -1, reuse: true, freshID: fid2}, p.G.Pkg.Name)
+						addJob(c19Meta{p: p, entry: e, in: inp, policy: -1, twinID: -1, reuse: true, noinit: true, freshID: fid}, p.G.Pkg.Name)
 					}
 				}
 			}
@@ -401,6 +410,9 @@ func c19Generated(c *fw.Ctx) {
 		if m.reuse {
 			who = "reused-parser/"
 		}
+		if m.noinit {
+			who = "reused-parser-without-reinit/"
+		}
 		if !c19Safety(c, who, m.in.text, m.policy, t, desc, files) {
 			continue
 		}
@@ -408,11 +420,15 @@ func c19Generated(c *fw.Ctx) {
 			// a parse must not depend on what the same Parser object parsed before
 			if ft := res.Traces[m.freshID]; ft != nil && ft.Panic == "" {
 				if diff := c19TraceDiff(ft, t); diff != "" {
-					c.Violate("reused-parser/differs-from-fresh-parser/"+diff, desc()+fmt.Sprintf("\nfresh parser: ok=%v errkind=%s [%d,%d) handler calls: %s\nevents: %s",
+					c.Violate(who+"differs-from-fresh-parser/"+diff, desc()+fmt.Sprintf("\nfresh parser: ok=%v errkind=%s [%d,%d) handler calls: %s\nevents: %s",
 						ft.OK, ft.ErrKind, ft.S, ft.E, recgram.EHString(ft.EH), recgram.EventsString(ft.Events)), files)
 					continue
 				}
-				c.Count("reused_parser_runs_identical_to_fresh", 1)
+				if m.noinit {
+					c.Count("reused_parser_without_reinit_runs_identical_to_fresh", 1)
+				} else {
+					c.Count("reused_parser_runs_identical_to_fresh", 1)
+				}
 			}
 		}
 		if m.reuse {
@@ -625,20 +641,25 @@ func c19ShippedCase(c *fw.Ctx, parser string) {
 			run := recgram.RunShipped(text, o)
 			c.Eval(1)
 			t := &genrun.Trace{OK: run.OK, ErrKind: run.ErrKind, Err: run.Err, S: run.S, E: run.E, EH: run.EH, Panic: run.Panic}
-			// the same input on the long-lived parser of this case
-			ro := o
-			ro.Reuse = true
-			rrun := recgram.RunShipped(text, ro)
-			rt := &genrun.Trace{OK: rrun.OK, ErrKind: rrun.ErrKind, Err: rrun.Err, S: rrun.S, E: rrun.E, EH: rrun.EH, Panic: rrun.Panic}
-			if run.Panic == "" {
+			// the same input on the long-lived parsers of this case (with and without a new Init)
+			for variant, who := range []string{"reused-parser", "reused-parser-without-reinit"} {
+				ro := o
+				ro.Reuse, ro.NoReinit = variant == 0, variant == 1
+				rrun := recgram.RunShipped(text, ro)
+				rt := &genrun.Trace{OK: rrun.OK, ErrKind: rrun.ErrKind, Err: rrun.Err, S: rrun.S, E: rrun.E, EH: rrun.EH, Panic: rrun.Panic}
+				if run.Panic != "" {
+					continue
+				}
 				if rrun.Panic != "" {
-					c.Violate("shipped-"+parser+"/reused-parser/panic/"+fw.Skeleton(firstLine(rrun.Panic)), fmt.Sprintf("text %q\n%s", text, rrun.Panic), map[string]string{"input.txt": text})
+					c.Violate("shipped-"+parser+"/"+who+"/panic/"+fw.Skeleton(firstLine(rrun.Panic)), fmt.Sprintf("text %q\n%s", text, rrun.Panic), map[string]string{"input.txt": text})
 				} else if diff := c19TraceDiff(t, rt); diff != "" || run.N != rrun.N || run.H != rrun.H {
 					if diff == "" {
 						diff = "events"
 					}
-					c.Violate("shipped-"+parser+"/reused-parser/differs-from-fresh-parser/"+diff, fmt.Sprintf("shipped parser %s, entry %d, dialect %d, handler policy %d\ntext: %q\nfresh parser:  ok=%v errkind=%s [%d,%d) events=%d handler calls: %s\nreused parser: ok=%v errkind=%s [%d,%d) events=%d handler calls: %s",
+					c.Violate("shipped-"+parser+"/"+who+"/differs-from-fresh-parser/"+diff, fmt.Sprintf("shipped parser %s, entry %d, dialect %d, handler policy %d\ntext: %q\nfresh parser:  ok=%v errkind=%s [%d,%d) events=%d handler calls: %s\nreused parser: ok=%v errkind=%s [%d,%d) events=%d handler calls: %s",
 						parser, o.Entry, d, o.EH, text, run.OK, run.ErrKind, run.S, run.E, run.N, recgram.EHString(run.EH), rrun.OK, rrun.ErrKind, rrun.S, rrun.E, rrun.N, recgram.EHString(rrun.EH)), map[string]string{"input.txt": text})
+				} else if variant == 1 {
+					c.Count("reused_parser_without_reinit_runs_identical_to_fresh", 1)
 				} else {
 					c.Count("reused_parser_runs_identical_to_fresh", 1)
 				}
@@ -697,7 +718,7 @@ func c19Run(c *fw.Ctx) {
 func init() {
 	fw.Register(&fw.Check{
 		ID:          "C19",
-		Rule:        "generated cases: grammar pairs (G, G') where G' is a plain CFG and G adds alternatives using 'error' (families: statement/block/argument-list/expression skeletons with error at statement, list-element and bracket level, '.recoveryScope' markers, LR(0) marker nonterminals; random CFGs with error in random places), both printed under the same random option vector (8 table-option vectors, fixWhitespace, reported/unreported comments, reported invalid tokens, tokenStream, tokenLine) and both accepted by compiler.Compile without conflicts; G must have recovery enabled. Inputs per start symbol: sampled sentences of G' (also with comments / foreign characters), 1-3 token mutations, truncations, random token strings, raw character garbage, a long sentence (150-4000 tokens) and the same with many errors; every input runs under 'continue always' and one of 'stop at first' / 'stop at k-th' on a fresh Parser, and once more on a long-lived Parser object shared by all such runs of the grammar (re-Init before each parse): result, handler calls and events must equal the fresh-parser run. Monitor: no panic/crash/CPU limit, events <= 400*(len+2)+1000 and handler calls <= len+16, handler offsets inside the input, ordered and non-decreasing, a stop request ends the parse with an error, syntax errors are preceded by a handler call; Earley on G' classifies token-level inputs: non-sentences must not be accepted without a handler call, sentences must produce no handler call and exactly the twin's events and value. Shipped cases: js (3 dialects), tm, test, json parsers imported from the repository run on their test-suite snippets and repository files (.tm/.tmerr/.ts/.js/.json), mostly with 1-3 text mutations (token deletion/duplication/swap/replacement, bracket and garbage insertion, truncation), same safety monitor, each input also on long-lived Parser/TokenStream/Lexer objects with the same comparison. Pair non-trivial/distinct: >=5 sentences identical to the twin and >=5 non-sentences reported; shipped input non-trivial: >=2 handler calls (js/tm) or rejected (test/json)",
+		Rule:        "generated cases: grammar pairs (G, G') where G' is a plain CFG and G adds alternatives using 'error' (families: statement/block/argument-list/expression skeletons with error at statement, list-element and bracket level, '.recoveryScope' markers, LR(0) marker nonterminals; random CFGs with error in random places), both printed under the same random option vector (8 table-option vectors, fixWhitespace, reported/unreported comments, reported invalid tokens, tokenStream, tokenLine) and both accepted by compiler.Compile without conflicts; G must have recovery enabled. Inputs per start symbol: sampled sentences of G' (also with comments / foreign characters), 1-3 token mutations, truncations, random token strings, raw character garbage, a long sentence (150-4000 tokens) and the same with many errors; every input runs under 'continue always' and one of 'stop at first' / 'stop at k-th' on a fresh Parser, and once more on a long-lived Parser object shared by all such runs of the grammar (one object re-initialised through Init before each parse, another initialised only once): result, handler calls and events must equal the fresh-parser run. Monitor: no panic/crash/CPU limit, events <= 400*(len+2)+1000 and handler calls <= len+16, handler offsets inside the input, ordered and non-decreasing, a stop request ends the parse with an error, syntax errors are preceded by a handler call; Earley on G' classifies token-level inputs: non-sentences must not be accepted without a handler call, sentences must produce no handler call and exactly the twin's events and value. Shipped cases: js (3 dialects), tm, test, json parsers imported from the repository run on their test-suite snippets and repository files (.tm/.tmerr/.ts/.js/.json), mostly with 1-3 text mutations (token deletion/duplication/swap/replacement, bracket and garbage insertion, truncation), same safety monitor, each input also on long-lived Parser/TokenStream/Lexer objects with the same comparison. Pair non-trivial/distinct: >=5 sentences identical to the twin and >=5 non-sentences reported; shipped input non-trivial: >=2 handler calls (js/tm) or rejected (test/json)",
 		Assumptions: []string{"Earley recognizer in internal/cfg is correct", "the generated lexer tokenizes space-separated literals correctly (C11)", "conflict-freeness is taken from the compiler's own report (C03)", "event correctness of the recovery-free twin is C02's property: the twin's events are the reference here"},
 		Cases: func(tier string) int {
 			a, b := c19Layout(tier)
@@ -707,7 +728,7 @@ func init() {
 		Run:           c19Run,
 		CPUBudget:     1200,
 		MinNontrivial: func(tier string) int { return 60 },
-		RequiredCounters: []string{"sentences_identical_to_twin", "non_sentences_reported", "handler_calls_checked", "recovered_to_acceptance", "stopped_by_handler", "reused_parser_runs_identical_to_fresh",
+		RequiredCounters: []string{"sentences_identical_to_twin", "non_sentences_reported", "handler_calls_checked", "recovered_to_acceptance", "stopped_by_handler", "reused_parser_runs_identical_to_fresh", "reused_parser_without_reinit_runs_identical_to_fresh",
 			"runs_with_3plus_errors", "pairs_skeleton", "pairs_random", "inputs_long-errors", "inputs_raw",
 			"shipped_js_runs_with_errors", "shipped_tm_runs_with_errors", "shipped_js_recovered", "shipped_tm_recovered", "shipped_test_rejected", "shipped_json_rejected",
 			"shipped_js_accepted_clean", "shipped_tm_accepted_clean"},
